@@ -4,6 +4,7 @@ C03 line-protocol driver (grammar: C01/Proto.lean). Answer: for every operation 
 joined by spaces; `bad-op` for anything malformed.
 -/
 import CaddyModel.C01.Proto
+import CaddyModel.C03.Deps
 
 namespace CaddyModel.C03
 open CaddyModel.Lifecycle CaddyModel.Lifecycle.Proto
@@ -17,7 +18,49 @@ def showStep (p : State × Res × State) : String :=
   showRes p.2.1 ++ "|" ++ showEvents (p.2.2.events.drop p.1.events.length ++ p.2.2.aevents.drop p.1.aevents.length) ++ "|" ++
     showPool p.2.2.mpool ++ "|" ++ showPool p.2.2.writers ++ "|" ++ showSocks p.2.2.socks
 
+/-! lazy app loading: one field `G=<app>;<app>…=<pp>=<ps>`, app = `<name>,<needs>,<fault>` -/
+
+def parseDApp (s : String) : Option Deps.DApp :=
+  match s.splitOn "," with
+  | [n, d, f] => do
+    let n ← n.toNat?
+    let d ← natList d
+    let f ← f.toNat?
+    if n < 4 ∧ d.length ≤ 4 ∧ d.all (· < 4) ∧ (f = 0 ∨ f = 3 ∨ f = 4 ∨ f = 5) then some ⟨n, d, f⟩ else none
+  | _ => none
+
+def showDEv : Deps.DEv → String
+  | .prov n => s!"p{n}" | .valid n => s!"v{n}" | .clean n => s!"c{n}"
+  | .start n => s!"s{n}" | .started n => s!"o{n}" | .startFail n => s!"f{n}" | .stop n => s!"x{n}"
+
+def showDEvs (l : List Deps.DEv) : String :=
+  if l.isEmpty then "-" else ",".intercalate (sortStrs (l.map showDEv))
+
+def showDRes : Deps.DRes → String
+  | .ok => "ok" | .errProvision => "err:provision" | .errValidate => "err:validate"
+  | .errStart => "err:start" | .fuel => "model-out-of-fuel"
+
+def handleDeps (s : String) : String :=
+  match s.splitOn "=" with
+  | ["G", d, pp, ps] =>
+    match (if d == "-" then some [] else (d.splitOn ";").mapM parseDApp), natList pp, natList ps with
+    | some defs, some pp, some ps =>
+      if strictlySorted (defs.map (·.name)) ∧ namesOk pp ∧ namesOk ps then
+        let r := Deps.load defs pp ps (Deps.enough defs)
+        let u := Deps.unload r.1
+        showDRes r.2 ++ "|" ++ showDEvs r.1.events ++ "|" ++
+          (if r.2 = .ok then showDEvs (u.events.drop r.1.events.length) else "-")
+      else "bad-op"
+    | _, _, _ => "bad-op"
+  | _ => "bad-op"
+
 def handle (fs : List String) : String :=
+  match fs with
+  | [g] => if g.startsWith "G=" then handleDeps g else
+    match parseCase fs with
+    | none => "bad-op"
+    | some ops => " ".intercalate ((trace3 State.init ops).map showStep)
+  | _ =>
   match parseCase fs with
   | none => "bad-op"
   | some ops => " ".intercalate ((trace3 State.init ops).map showStep)
